@@ -10,7 +10,7 @@ META = {
     "design_ref": "5/C37",
     "coq_targets": ["Props/Properties_C37.vo", "IRProc/C37Model.vo"],
     "coq_files": ["Gen/IRProcConsts.v", "IRProc/C37Model.v", "IRProc/C37Proofs.v", "Props/Properties_C37.v"],
-    "theorems": ["C37_approve_implies", "C37_approve_iff_reference", "C37_token_verb_and_container", "C37_no_system_role"],
+    "theorems": ["C37_approve_implies", "C37_reference_sound", "C37_token_verb_and_container", "C37_no_system_role"],
     "technique": "Coq: decision model of the container processor's request checks (creation V1/named/V2 with optional eACL, removal, eACL, attribute set/remove) over abstract signature facts, "
                  "proved to approve only under the property's conditions; model tied by differential runs of the real processor functions (real morph client over a fake Neo RPC node, real ECDSA keys, "
                  "real SDK tokens of both versions) and the implementation's approvals evaluated against the theorem's right-hand side",
@@ -64,6 +64,20 @@ def eacl_term(t):
     return "(mkeacl %s %s %s %s)" % (B(t["decodes"]), B(t["cid_set"]), B(t["cid_same"]), recs)
 
 
+ATTR_NAMES = {}
+
+
+def attr_name(k):
+    """attribute keys are bound to names once per chunk (string literals are expensive to parse)"""
+    if k not in ATTR_NAMES:
+        ATTR_NAMES[k] = "attr_%d" % len(ATTR_NAMES)
+    return ATTR_NAMES[k]
+
+
+def attr_defs():
+    return "".join("Definition %s : string := %s.\n" % (n, vlib.coq_string(k)) for k, n in sorted(ATTR_NAMES.items(), key=lambda kv: kv[1]))
+
+
 def nat0(i):
     return max(i, 0)
 
@@ -73,7 +87,7 @@ def case_term(c):
     op = c["op"]
     a = auth_term(c["auth"])
     if op <= 2:
-        cre = "(mkcre %s %d %s %d %d %s %s %s %s)" % (B(c["decodes"]), nat0(c["owner"]), vlib.coq_list(c["attrs"], vlib.coq_string), c["n_rep"], c["n_ec"],
+        cre = "(mkcre %s %d %s %d %d %s %s %s %s)" % (B(c["decodes"]), nat0(c["owner"]), vlib.coq_list(c["attrs"], attr_name), c["n_rep"], c["n_ec"],
                                                      B(c["initial"]), B(c["pol_verify"]), B(c["name_match"]), B(c["extendable"]))
         e2 = "None"
         if c.get("eacl"):
@@ -129,10 +143,10 @@ def run(ctx):
         ctx.tie(False)
         return
     jobs, offs = [], []
-    CH = 350
+    CH = 800 if ctx.tier == "quick" else 1500   # loading the model costs more than evaluating a chunk: few, large chunks
     for off in range(0, len(cases), CH):
         lit = vlib.coq_list(cases[off:off + CH], case_term)
-        jobs.append(("cases", PRELUDE + "Definition cases : list case := %s.\n" % lit, {"model": "model_mismatches cases", "ref": "ref_violations cases"}))
+        jobs.append(("cases", PRELUDE + attr_defs() + "Definition cases : list case := %s.\n" % lit, {"model": "model_mismatches cases", "ref": "ref_violations cases"}))
         offs.append(off)
     bad_m, bad_r = [], []
     for off, res in zip(offs, ctx.coq_eval_many(jobs)):
